@@ -37,12 +37,13 @@ const (
 )
 
 type qval struct {
-	k   qkind
-	b   bool
-	i   int64
-	s   string
-	key ssa.Value
-	tup []qval
+	k    qkind
+	b    bool  // qBool value; qSlice: the slice does not reach the end of its list
+	i    int64 // qInt/qByte value; qSlice: offset of the slice in its list
+	s    string
+	key  ssa.Value
+	root ssa.Value // qSlice/qSliceLen: the list (parameter) this slice is a part of
+	tup  []qval
 }
 
 func (v qval) String() string {
@@ -70,9 +71,9 @@ func (v qval) String() string {
 	case qLen:
 		return "L@" + vname(v.key)
 	case qSlice:
-		return "SS@" + vname(v.key)
+		return fmt.Sprintf("SS@%s+%d%v", vname(v.key), v.i, v.b)
 	case qSliceLen:
-		return "SL@" + vname(v.key)
+		return fmt.Sprintf("SL@%s+%d%v", vname(v.key), v.i, v.b)
 	case qBig:
 		return "big"
 	}
@@ -144,6 +145,8 @@ type qstate struct {
 	frames    []*qframe
 	strs      map[ssa.Value]*qstr
 	sl        map[ssa.Value]int8 // emptiness decisions for slices of strings
+	cov       map[ssa.Value]int8 // per list: number of leading elements consumed so far (0..3, 4 = many, -1 = all)
+	exact     map[ssa.Value]int8 // per list: its length when a test pinned it (else absent)
 	impl      int64
 	ref       refState
 	doneImpl  int // strings completed since the last token boundary seen by the package tokenizer
@@ -164,6 +167,14 @@ func (s *qstate) clone() *qstate {
 	n.sl = make(map[ssa.Value]int8, len(s.sl))
 	for k, v := range s.sl {
 		n.sl[k] = v
+	}
+	n.cov = make(map[ssa.Value]int8, len(s.cov))
+	for k, v := range s.cov {
+		n.cov[k] = v
+	}
+	n.exact = make(map[ssa.Value]int8, len(s.exact))
+	for k, v := range s.exact {
+		n.exact[k] = v
 	}
 	return &n
 }
@@ -195,6 +206,12 @@ func (s *qstate) key() string {
 	}
 	for k, v := range s.sl {
 		ss = append(ss, fmt.Sprintf("sl %s=%d", vname(k), v))
+	}
+	for k, v := range s.cov {
+		ss = append(ss, fmt.Sprintf("cov %s=%d", vname(k), v))
+	}
+	for k, v := range s.exact {
+		ss = append(ss, fmt.Sprintf("len %s=%d", vname(k), v))
 	}
 	sort.Strings(ss)
 	sb.WriteString(strings.Join(ss, ";"))
@@ -696,6 +713,11 @@ func (q *qx) step(st *qstate) []*qstate {
 				// a string read from memory (an element of the argument list): a fresh input string
 				st.strs[x] = &qstr{cur: -1, flags: map[*ssa.Function][]int8{}}
 				f.env[x] = qval{k: qStr, key: x}
+				if ia, ok := x.X.(*ssa.IndexAddr); ok {
+					if sv := q.eval(f, ia.X); sv.k == qSlice {
+						q.consumeElem(st, f, sv, ia.Index, x.Pos())
+					}
+				}
 			case isBufType(x.Type()):
 				f.env[x] = qval{k: qBuf}
 			default:
@@ -739,7 +761,18 @@ func (q *qx) step(st *qstate) []*qstate {
 		return one
 	case *ssa.Slice:
 		if v := q.eval(f, x.X); v.k == qSlice {
-			f.env[x] = qval{k: qSlice, key: x} // a sub-list: its own emptiness
+			nv := qval{k: qSlice, key: x, root: v.root, i: v.i, b: v.b} // a sub-list: its own emptiness
+			if x.Low != nil {
+				if lo := q.eval(f, x.Low); lo.k == qInt && lo.i >= 0 {
+					nv.i += lo.i
+				} else {
+					nv.root = nil // starts somewhere the analysis cannot place
+				}
+			}
+			if x.High != nil {
+				nv.b = true
+			}
+			f.env[x] = nv
 		} else {
 			delete(f.env, x)
 		}
@@ -1016,6 +1049,77 @@ func (q *qx) binop(st *qstate, f *qframe, x *ssa.BinOp) []*qstate {
 		}
 		delete(f.env, x)
 		return one
+	case X.k == qSliceLen && rangeLike(otherOperand(x, f, q)):
+		// "is there another element": free choice, but when the answer is no the elements consumed must be all
+		var out []*qstate
+		for _, more := range []bool{true, false} {
+			var res bool
+			switch op {
+			case token.GTR, token.NEQ: // len > i
+				res = more
+			case token.LEQ, token.EQL:
+				res = !more
+			default:
+				delete(f.env, x)
+				return one
+			}
+			n := st.clone()
+			// consistency with what is already known about the length
+			if p0, ok := q.absPos(n.top(), otherOperand(x, n.top(), q), 0); ok {
+				if p0 == 0 {
+					if d := n.sl[X.key]; (d == 1 && more) || (d == 2 && !more) {
+						continue
+					}
+					if more {
+						n.sl[X.key] = 2
+					} else {
+						n.sl[X.key] = 1
+					}
+				}
+				if e, pinned := n.exact[X.root]; pinned && X.root != nil && X.i == 0 && !X.b && p0 < 4 {
+					if (more && p0 >= e) || (!more && p0 != e) {
+						continue
+					}
+				}
+			}
+			if !more && X.root != nil {
+				pos, ok := q.absPos(n.top(), otherOperand(x, n.top(), q), X.i)
+				c := n.cov[X.root]
+				switch {
+				case c == -2:
+				case !ok || pos != c:
+					q.problem(x.Pos(), "the loop over the list ends at an element position that is not the number of elements written so far: an element is skipped or written twice")
+					n.cov[X.root] = -2
+				case X.b:
+					q.problem(x.Pos(), "the loop runs over a part of the list that stops before its end: trailing elements are never written")
+					n.cov[X.root] = -2
+				default:
+					n.cov[X.root] = -1
+				}
+			}
+			setB(n, res)
+			out = append(out, n)
+		}
+		return out
+	case X.k == qSliceLen && Y.k == qInt && (op == token.EQL || op == token.NEQ) && Y.i >= 1 && Y.i <= 3 && X.root != nil && X.i == 0 && !X.b:
+		// the length of the whole list compared with a small constant
+		var out []*qstate
+		for _, eq := range []bool{true, false} {
+			if e, ok := st.exact[X.root]; ok && (e == int8(Y.i)) != eq {
+				continue
+			}
+			if eq && st.sl[X.key] == 1 {
+				continue
+			}
+			n := st.clone()
+			if eq {
+				n.exact[X.root] = int8(Y.i)
+				n.sl[X.key] = 2
+			}
+			setB(n, eq == (op == token.EQL))
+			out = append(out, n)
+		}
+		return out
 	case X.k == qSliceLen && Y.k == qInt:
 		var trueMeansEmpty, known bool
 		switch {
@@ -1138,7 +1242,7 @@ func (q *qx) call(st *qstate, f *qframe, x *ssa.Call) []*qstate {
 			case qCStr:
 				f.env[x] = qval{k: qInt, i: int64(len(v.s))}
 			case qSlice:
-				f.env[x] = qval{k: qSliceLen, key: v.key}
+				f.env[x] = qval{k: qSliceLen, key: v.key, root: v.root, i: v.i, b: v.b}
 			default:
 				delete(f.env, x)
 			}
@@ -1376,6 +1480,16 @@ func (q *qx) finalCheck(st *qstate, pos token.Pos) {
 				return
 			}
 		}
+		for root, c := range st.cov {
+			e, pinned := st.exact[root]
+			switch {
+			case c == -1 || c == -2:
+			case pinned && c == e:
+			case c == 0 && st.sl[root] == 1:
+			default:
+				q.problem(pos, "%s can return after writing only the first %s elements of the list: the remaining strings are dropped", name, posName(c))
+			}
+		}
 	}
 	wantPending := st.doneRef == 1
 	if st.doneRef > 1 {
@@ -1405,7 +1519,7 @@ func (q *qx) finalCheck(st *qstate, pos token.Pos) {
 
 // rootState builds the initial state for fn.
 func (q *qx) rootState(fn *ssa.Function) *qstate {
-	st := &qstate{strs: map[ssa.Value]*qstr{}, sl: map[ssa.Value]int8{}}
+	st := &qstate{strs: map[ssa.Value]*qstr{}, sl: map[ssa.Value]int8{}, cov: map[ssa.Value]int8{}, exact: map[ssa.Value]int8{}}
 	q.resetOutput(st)
 	f := &qframe{fn: fn, b: fn.Blocks[0], env: map[ssa.Value]qval{}, cells: map[*ssa.Alloc]qval{}}
 	for _, p := range fn.Params {
@@ -1414,7 +1528,8 @@ func (q *qx) rootState(fn *ssa.Function) *qstate {
 			st.strs[p] = &qstr{cur: -1, flags: map[*ssa.Function][]int8{}}
 			f.env[p] = qval{k: qStr, key: p}
 		case isStringSlice(p.Type()):
-			f.env[p] = qval{k: qSlice, key: p}
+			f.env[p] = qval{k: qSlice, key: p, root: p}
+			st.cov[p] = 0
 		case isBufType(p.Type()):
 			f.env[p] = qval{k: qBuf}
 		}
@@ -1532,4 +1647,94 @@ func qsat(v qval) qval {
 		return qval{}
 	}
 	return v
+}
+
+// otherOperand: the operand of a comparison that is not the length.
+func otherOperand(x *ssa.BinOp, f *qframe, q *qx) ssa.Value {
+	if v := q.eval(f, x.X); v.k == qSliceLen || v.k == qLen {
+		return x.Y
+	}
+	return x.X
+}
+
+// rangeLike: v is the index of an element-by-element loop: a φ starting at -1 or 0 and advancing by one, or that φ + 1.
+func rangeLike(v ssa.Value) bool {
+	if bo, ok := v.(*ssa.BinOp); ok && bo.Op == token.ADD && isConstInt(bo.Y, 1) {
+		v = bo.X
+	}
+	ph, ok := v.(*ssa.Phi)
+	if !ok {
+		return false
+	}
+	init, step := false, false
+	for i, e := range ph.Edges {
+		if ph.Block().Dominates(ph.Block().Preds[i]) {
+			f, ok := affOf(e, ph, nil, 0)
+			if !ok || f != (aff{1, 1, 1}) {
+				return false
+			}
+			step = true
+		} else {
+			if k, ok := constInt(e); !ok || k < -1 || k > 3 {
+				return false
+			}
+			init = true
+		}
+	}
+	return init && step
+}
+
+// absPos: the abstract position in the list (0..3, 4 = many) of index value v in a slice at offset off.
+func (q *qx) absPos(f *qframe, v ssa.Value, off int64) (int8, bool) {
+	x := q.eval(f, v)
+	switch x.k {
+	case qInt:
+		p := x.i + off
+		if p < 0 {
+			return 0, false
+		}
+		if p > 3 {
+			p = 4
+		}
+		return int8(p), true
+	case qBig:
+		if rangeLike(v) {
+			return 4, true
+		}
+	}
+	return 0, false
+}
+
+// consumeElem: element idx of slice sv is read; the elements of a list must be read one by one from the start.
+func (q *qx) consumeElem(st *qstate, f *qframe, sv qval, idx ssa.Value, pos token.Pos) {
+	if sv.root == nil {
+		return
+	}
+	c, tracked := st.cov[sv.root]
+	if !tracked || c == -2 {
+		return
+	}
+	p, ok := q.absPos(f, idx, sv.i)
+	switch {
+	case !ok:
+		q.problem(pos, "an element of the list is read at a position the analysis cannot place: whether every string is written once, in order, is not known")
+		st.cov[sv.root] = -2
+	case c == -1 || p != c:
+		q.problem(pos, "the elements of the list are not written one by one in order: element %s is read when %s elements have been written", posName(p), posName(c))
+		st.cov[sv.root] = -2
+	default:
+		if c < 4 {
+			st.cov[sv.root] = c + 1
+		}
+	}
+}
+
+func posName(p int8) string {
+	switch {
+	case p == -1:
+		return "all"
+	case p >= 4:
+		return "≥4"
+	}
+	return fmt.Sprint(p)
 }
